@@ -946,15 +946,15 @@ class RemoterTls(Remoter):
             # the value of a given errno.XXXXX may be different on each os
             if  ex.args[0] in (ssl.SSL_ERROR_WANT_READ, ssl.SSL_ERROR_WANT_WRITE):
                 return None  # blocked waiting for data
-            elif ex.args[0] in (errno.ECONNRESET,
-                                errno.ENETRESET,
-                                errno.ENETUNREACH,
-                                errno.EHOSTUNREACH,
-                                errno.ENETDOWN,
-                                errno.EHOSTDOWN,
-                                errno.ETIMEDOUT,
-                                errno.ECONNREFUSED,
-                                ssl.SSLEOFError):
+            elif (isinstance(ex, ssl.SSLEOFError) or  # TLS EOF is a class, not an errno
+                  ex.args[0] in (errno.ECONNRESET,
+                                 errno.ENETRESET,
+                                 errno.ENETUNREACH,
+                                 errno.EHOSTUNREACH,
+                                 errno.ENETDOWN,
+                                 errno.EHOSTDOWN,
+                                 errno.ETIMEDOUT,
+                                 errno.ECONNREFUSED)):
                 self.cutoff = True  # this signals need to close/reopen connection
                 return bytes()  # data empty
             else:
@@ -985,15 +985,15 @@ class RemoterTls(Remoter):
             # the value of a given errno.XXXXX may be different on each os
             if ex.args[0] in (ssl.SSL_ERROR_WANT_READ, ssl.SSL_ERROR_WANT_WRITE):
                 result = 0  # blocked try again
-            elif ex.args[0] in (errno.ECONNRESET,
-                                errno.ENETRESET,
-                                errno.ENETUNREACH,
-                                errno.EHOSTUNREACH,
-                                errno.ENETDOWN,
-                                errno.EHOSTDOWN,
-                                errno.ETIMEDOUT,
-                                errno.ECONNREFUSED,
-                                ssl.SSLEOFError):
+            elif (isinstance(ex, ssl.SSLEOFError) or  # TLS EOF is a class, not an errno
+                  ex.args[0] in (errno.ECONNRESET,
+                                 errno.ENETRESET,
+                                 errno.ENETUNREACH,
+                                 errno.EHOSTUNREACH,
+                                 errno.ENETDOWN,
+                                 errno.EHOSTDOWN,
+                                 errno.ETIMEDOUT,
+                                 errno.ECONNREFUSED)):
                 self.cutoff = True  # this signals need to close/reopen connection
                 result = 0
             else:
